@@ -52,11 +52,12 @@ func (tc *tokenConverter) convert(tokens []models.TokenWithSpan) (*ConversionRes
 		t := t
 		if expanded := tc.handleCompoundToken(t); len(expanded) > 0 {
 			tc.buffer = append(tc.buffer, expanded...)
-			for range expanded {
+			for i := range expanded {
+				start, end := compoundPartSpan(t, expanded, i)
 				positions = append(positions, TokenPosition{
 					OriginalIndex: originalIndex,
-					Start:         t.Start,
-					End:           t.End,
+					Start:         start,
+					End:           end,
 					SourceToken:   &t,
 				})
 			}
@@ -86,6 +87,33 @@ func (tc *tokenConverter) convert(tokens []models.TokenWithSpan) (*ConversionRes
 	}
 	copy(result.Tokens, tc.buffer)
 	return result, nil
+}
+
+// compoundPartSpan returns the source span of the i-th keyword a compound token (e.g. "GROUP BY")
+// was split into. The words of a compound keyword contain no blanks or line breaks, so the first
+// word occupies len(word) columns from the token's start and the last word the len(word) columns
+// before the token's end; a middle word is only known to lie between them. When the token's span
+// cannot hold the words (no position information, hand-built spans), every part keeps the span of
+// the whole token.
+func compoundPartSpan(t models.TokenWithSpan, parts []token.Token, i int) (models.Location, models.Location) {
+	n := len(parts)
+	if n < 2 || t.Start.Line < 1 {
+		return t.Start, t.End
+	}
+	firstEnd := models.Location{Line: t.Start.Line, Column: t.Start.Column + len(parts[0].Literal)}
+	lastStart := models.Location{Line: t.End.Line, Column: t.End.Column - len(parts[n-1].Literal)}
+	if lastStart.Column < 1 || lastStart.Line < firstEnd.Line ||
+		(lastStart.Line == firstEnd.Line && lastStart.Column < firstEnd.Column) {
+		return t.Start, t.End
+	}
+	switch i {
+	case 0:
+		return t.Start, firstEnd
+	case n - 1:
+		return lastStart, t.End
+	default:
+		return firstEnd, lastStart
+	}
 }
 
 func (tc *tokenConverter) handleCompoundToken(t models.TokenWithSpan) []token.Token {
